@@ -13,6 +13,7 @@ TABLES = {
     "coldiff": dict(test="TestTableCollectionDiff", module="CollDiffCheck", env={"quick": {"VERIF_DIFF_LEN": "3"}, "thorough": {"VERIF_DIFF_LEN": "4"}}),
     "gc": dict(test="TestTableGC", module="GCCheck", env={"quick": {"VERIF_GC_NODES": "3"}, "thorough": {"VERIF_GC_NODES": "3", "VERIF_GC_SAMPLE4": "1500"}}),
     "subjects": dict(test="TestTableSubjects", module="SubjectCheck", pkg="gw", env={"quick": {"VERIF_SUBJ_LEN": "3"}, "thorough": {"VERIF_SUBJ_LEN": "4"}}),
+    "callsubject": dict(test="TestTableSubjects", out="subjects", module="CallSubjectCheck", pkg="gw", env={"quick": {"VERIF_SUBJ_LEN": "3"}, "thorough": {"VERIF_SUBJ_LEN": "4"}}),
     "origin": dict(test="TestTableOrigin", module="OriginCheck", pkg="gw", env={"quick": {"VERIF_ORIGIN_LEN": "3"}, "thorough": {"VERIF_ORIGIN_LEN": "3", "VERIF_ORIGIN_EXT": "1"}}),
     "httpstatus": dict(test="TestTableHTTPStatus", module="HttpStatusCheck", pkg="gw", env={}),
     "render": dict(test="TestTableRender", module="RenderCheck", pkg="gw", env={"quick": {"VERIF_RENDER_FULL": "0"}, "thorough": {"VERIF_RENDER_FULL": "1"}}),
@@ -46,7 +47,7 @@ def run_table(name, tier, workdir):
     os.makedirs(d, exist_ok=True)
     env = dict(GOENV, VERIF_OUT=d, **spec["env"].get(tier, {}))
     p = run([binp, "-test.run", "^%s$" % spec["test"], "-test.timeout", "30m"], cwd=d, env=env, check=False, timeout=3000)
-    tab = os.path.join(d, name + ".ndjson")
+    tab = os.path.join(d, spec.get("out", name) + ".ndjson")
     if p.returncode != 0 or not os.path.exists(tab):
         # a crash of the real function on some input is itself a finding of the table
         return dict(rows=0, bad=[{"row": 0, "rec": {"crash": p.stdout[-1500:]}}], complete=False, wall_s=t.s(), samples=[], crashed=True)
